@@ -58,10 +58,13 @@ func c02AllBehs(hasPub bool) []c02Beh {
 			if !hasPub {
 				nouts = []int{0}
 			}
+			if end != "panic" {
+				nouts = append(nouts, -1) // an empty slice that is not nil: no messages all the same
+			}
 			for _, pv := range pvs {
 				for _, n := range nouts {
 					pubs := []string{"accept", "error", "error-canceled", "error-wrapped-canceled", "panic"}
-					if !hasPub || n == 0 && end != "ok" {
+					if !hasPub || n == 0 && end != "ok" || n < 0 {
 						pubs = []string{"accept"}
 					}
 					errks := []string{""}
@@ -244,6 +247,9 @@ func c02Run(r *tr.Run, cs c02Case, rng *rand.Rand) (gateReached bool) {
 			}()
 		}
 		var outs []*message.Message
+		if b.NOuts < 0 {
+			outs = []*message.Message{}
+		}
 		for k := 1; k <= b.NOuts; k++ {
 			o := message.NewMessage(fmt.Sprintf("%s.o%d", msg.UUID, k), []byte(fmt.Sprintf("payload-%d", k)))
 			o.Metadata.Set("k", fmt.Sprint(k))
